@@ -42,6 +42,61 @@ pub fn main(args: &[String]) {
             }
             tw.finish();
         }
+        // ENVIRONMENT: a process image that is DUPLICATED after it has created archives (pre-forking servers, Python
+        // multiprocessing with the fork start method): the children and the parent go on creating archives with identical
+        // inputs; whatever generator state the library keeps is then identical in all of them.
+        // args: out-prefix proc_id count       (writes <prefix>.parent.ndjson, <prefix>.child<k>.ndjson)
+        "forkfresh" => {
+            unsafe extern "C" {
+                fn fork() -> i32;
+                fn waitpid(pid: i32, status: *mut i32, options: i32) -> i32;
+            }
+            let proc = args[2].clone();
+            let n: usize = args[3].parse().unwrap();
+            let keys = archive::keypairs(1, 2);
+            let create = |tw: &mut JsonlWriter, who: &str, i: usize| {
+                let mut cfg = ArchiveWriterConfig::new();
+                cfg.set_layers(if i % 2 == 0 { Layers::ENCRYPT } else { Layers::DEFAULT });
+                cfg.add_public_keys(&[keys[0].1, keys[1].1]);
+                let key = *cfg.encryption_key();
+                let nonce = *cfg.encryption_nonce();
+                let sink = SharedSink::new();
+                let mut w = ArchiveWriter::from_config(sink.clone(), cfg).expect("create");
+                w.add_file("same", 4, &b"same"[..]).unwrap();
+                w.finalize().unwrap();
+                let h = refcodec::parse_header(&sink.snapshot()).expect("header");
+                let zero = key.iter().all(|b| *b == 0) || nonce.iter().all(|b| *b == 0) || h.nonce != nonce;
+                tw.push(&json!({"ev": "create", "proc": format!("{proc}/{who}"), "i": i, "key": hex::encode(key),
+                                "nonce": hex::encode(nonce), "eph": hex::encode(h.ephemeral), "zero": zero}));
+            };
+            let mut tw = JsonlWriter::create(&format!("{}.parent.ndjson", args[1]));
+            for i in 0..3 {
+                create(&mut tw, "parent-before", i);      // the process has used the library before it is duplicated
+            }
+            let mut kids = vec![];
+            for k in 0..3 {
+                let pid = unsafe { fork() };
+                if pid == 0 {
+                    let mut cw = JsonlWriter::create(&format!("{}.child{k}.ndjson", args[1]));
+                    for i in 0..n {
+                        create(&mut cw, &format!("child{k}"), i);
+                    }
+                    cw.finish();
+                    std::process::exit(0);
+                }
+                assert!(pid > 0, "fork failed");
+                kids.push(pid);
+            }
+            for i in 0..n {
+                create(&mut tw, "parent-after", i);
+            }
+            tw.finish();
+            for pid in kids {
+                let mut st = 0i32;
+                unsafe { waitpid(pid, &mut st, 0) };
+                assert!(st == 0, "forked child failed");
+            }
+        }
         // args: behaviours.jsonl out.json
         "keywrap" => {
             let behs = read_jsonl(&args[1]);
